@@ -1,21 +1,21 @@
 #!/bin/sh
-# Build the framework from files on disk only (offline): Coq development (full .vo build),
-# extraction + OCaml runner, Go harness against /repo.
+# Build the framework from files on disk only (offline): Go harness against the repository,
+# kernels regenerated from it (go2v), Coq development (full .vo build), extraction + OCaml runner.
 set -e
 cd "$(dirname "$0")"
 export GOFLAGS=-mod=mod GOPROXY=off
-(cd coq && timeout 3000 ./mk.sh)
-mkdir -p runner/gen
-coq/Extract/gen.sh
-runner/genall.sh
-(cd runner/gen && timeout 1200 coqc -Q ../../coq GP ../../coq/Extract/Extract.v && echo ok > .stamp)
-(cd runner && timeout 1200 dune build ./main.exe)
 REPO=${VERIF_REPO:-/repo}
-mkdir -p harness/bin
+mkdir -p harness/bin runner/gen
 sed "s#@REPO@#$REPO#" harness/go.mod.tmpl > harness/bin/go.mod
 cp $REPO/go.sum harness/bin/go.sum
 cp $REPO/go.sum harness/go.sum
 (cd harness && timeout 1800 go build -modfile bin/go.mod -tags verif -o bin/gpverif ./cmd/gpverif)
 (cd harness && timeout 1800 go build -race -modfile bin/go.mod -o bin/racecheck ./cmd/racecheck || true)
+(cd harness && VERIF_REPO=$REPO ./bin/gpverif go2v ../coq/Gen/Kernels.v.new && (cmp -s ../coq/Gen/Kernels.v.new ../coq/Gen/Kernels.v || mv ../coq/Gen/Kernels.v.new ../coq/Gen/Kernels.v); rm -f ../coq/Gen/Kernels.v.new)
+(cd coq && timeout 6000 ./mk.sh)
+coq/Extract/gen.sh
+runner/genall.sh
+(cd runner/gen && timeout 1200 coqc -Q ../../coq GP ../../coq/Extract/Extract.v && echo ok > .stamp)
+(cd runner && timeout 1200 dune build ./main.exe)
 ./check --warm
 echo setup done
